@@ -132,6 +132,21 @@ def cases(wire_cases, tier, seed):
             a = [17, u, 0, 0] + [r.randrange(256) for _ in range(max(8, 4 * (u + 2) - 4))]
             for cut in (len(a), 4 * (u + 2), max(0, 4 * (u + 2) - 1), 11, 12, 0):
                 out.append({'type': 'ext4', 'start': st, 'bytes': a[:cut]})
+    # the LimitedReader machine driven directly: every call sequence of up to 3 calls (read_exact(n), start_layer) for every budget / data length,
+    # plus longer seeded sequences
+    import itertools
+    M = 5 if tier == 'quick' else 7
+    alphabet = [[n] for n in range(0, M + 1)] + [[-1]]
+    for mx in range(0, M + 1):
+        for av in range(0, M + 1):
+            for ln in (1, 2, 3):
+                for seq in itertools.product(alphabet, repeat=ln):
+                    if ln == 3 and tier == 'quick' and r.random() > 0.25:
+                        continue
+                    out.append({'type': 'lr', 'max': mx, 'avail': av, 'calls': list(seq), 'bytes': []})
+    for _ in range(300 if tier == 'quick' else 5000):
+        mx, av = r.randrange(0, 200), r.randrange(0, 200)
+        out.append({'type': 'lr', 'max': mx, 'avail': av, 'bytes': [], 'calls': [r.choice([[-1], [r.randrange(0, 60)], [r.randrange(0, 20)], [0]]) for _ in range(r.randrange(1, 12))]})
     for i, c in enumerate(out):
         c['id'] = 'i%d' % i
     return out
@@ -179,7 +194,7 @@ def run_io(pid, tier, seed, wd, binary):
     faults = 0
     for line in open(trace):
         e = json.loads(line)
-        faults += len(e.get('reads', [])) + len(e.get('writes', [])) + len(e.get('slices', [])) + len(e.get('limited', []))
+        faults += len(e.get('reads', [])) + len(e.get('writes', [])) + len(e.get('slices', [])) + len(e.get('limited', [])) + len(e.get('obs', []))
     notes['io_faults'] = {'byte_strings': len(cs), 'fault_positions_executed': faults, 'mismatches_all_properties': len(res['bad'])}
     for eid, tag in res['bad']:
         if pid in tag_props(tag):
